@@ -31,11 +31,11 @@ Ltac inv H := inversion H; subst; clear H.
 
 (* normal form for state expressions: top-level accessors and setters unfolded, projections reduced *)
 Ltac sproj :=
-  unfold clock, faults, trace, taint_close, taint_reset, nconns, c_nclose, c_start, c_det, c_mark, c_soft, nrecs, r_dbc, r_start, r_soft, r_fresh, r_fairy, nfairies, f_dbc, f_rec, f_orig, f_counter, f_dead, inv_time, q, overflow, static, sg_rec, sg_fairy, as_conn, as_out,
-    set_clock, set_faults, set_trace, set_taint_close, set_taint_reset, set_nconns, set_c_nclose, set_c_start, set_c_det, set_c_mark, set_c_soft, set_nrecs, set_r_dbc, set_r_start, set_r_soft, set_r_fresh, set_r_fairy, set_nfairies, set_f_dbc, set_f_rec, set_f_orig, set_f_counter, set_f_dead, set_inv_time, set_q, set_overflow, set_static, set_sg_rec, set_sg_fairy, set_as_conn, set_as_out, set_ex, set_cn, set_rc, set_fr, set_holders, set_pl in *;
-  cbn [clock_ faults_ trace_ taint_close_ taint_reset_ nconns_ c_nclose_ c_start_ c_det_ c_mark_ c_soft_ nrecs_ r_dbc_ r_start_ r_soft_ r_fresh_ r_fairy_ nfairies_ f_dbc_ f_rec_ f_orig_ f_counter_ f_dead_ inv_time_ q_ overflow_ static_ sg_rec_ sg_fairy_ as_conn_ as_out_ ex cn rc fr holders pl] in *.
+  unfold clock, faults, trace, taint_close, taint_gc, nconns, c_nclose, c_start, c_det, c_mark, c_soft, nrecs, r_dbc, r_start, r_soft, r_fresh, r_fairy, nfairies, f_dbc, f_rec, f_orig, f_counter, f_dead, inv_time, q, overflow, static, sg_rec, sg_fairy, as_conn, as_out,
+    set_clock, set_faults, set_trace, set_taint_close, set_taint_gc, set_nconns, set_c_nclose, set_c_start, set_c_det, set_c_mark, set_c_soft, set_nrecs, set_r_dbc, set_r_start, set_r_soft, set_r_fresh, set_r_fairy, set_nfairies, set_f_dbc, set_f_rec, set_f_orig, set_f_counter, set_f_dead, set_inv_time, set_q, set_overflow, set_static, set_sg_rec, set_sg_fairy, set_as_conn, set_as_out, set_ex, set_cn, set_rc, set_fr, set_holders, set_pl in *;
+  cbn [clock_ faults_ trace_ taint_close_ taint_gc_ nconns_ c_nclose_ c_start_ c_det_ c_mark_ c_soft_ nrecs_ r_dbc_ r_start_ r_soft_ r_fresh_ r_fairy_ nfairies_ f_dbc_ f_rec_ f_orig_ f_counter_ f_dead_ inv_time_ q_ overflow_ static_ sg_rec_ sg_fairy_ as_conn_ as_out_ ex cn rc fr holders pl] in *.
 
-Definition taint (s : st) : bool := taint_close s || taint_reset s.
+Definition taint (s : st) : bool := taint_close s || taint_gc s.
 
 (* ------------------------------------------------------------------ RecLevel *)
 Record RecLevel (s s' : st) : Prop := {
@@ -51,7 +51,7 @@ Record RecLevel (s s' : st) : Prop := {
   rl_nrecs : nrecs s' = nrecs s;
   rl_fairy : r_fairy s' = r_fairy s;
   rl_tc : taint_close s = true -> taint_close s' = true;
-  rl_tg : taint_reset s' = taint_reset s;
+  rl_tg : taint_gc s' = taint_gc s;
   rl_nconns : (nconns s <= nconns s')%nat }.
 
 Lemma RecLevel_refl : forall s, RecLevel s s.
@@ -109,7 +109,7 @@ Lemma rec_close_rl : forall r s x s', rec_close r s = (x, s') -> RecLevel s s'.
 Proof.
   unfold rec_close; intros. dm H; [|inv H; apply RecLevel_refl].
   destruct (close_connection n s) as [y s1] eqn:E1. apply close_connection_rl in E1.
-  dm H; inv H; auto. eapply RecLevel_trans; [exact E1|]. rl_leaf.
+  dm H; inv H; (eapply RecLevel_trans; [exact E1|]; rl_leaf).
 Qed.
 
 Lemma rec_connect_rl : forall r s x s', rec_connect cf r s = (x, s') -> RecLevel s s'.
@@ -177,7 +177,7 @@ Record Mono (s s' : st) : Prop := {
   m_hold : holders s' = holders s;
   m_sg : forall f, sg_fairy s' = Some f -> sg_fairy s = Some f \/ (nfairies s <= f < nfairies s')%nat;
   m_tc : taint_close s = true -> taint_close s' = true;
-  m_tg : taint_reset s = true -> taint_reset s' = true;
+  m_tg : taint_gc s = true -> taint_gc s' = true;
   m_nrecs : (nrecs s <= nrecs s')%nat }.
 
 Lemma Mono_refl : forall s, Mono s s.
@@ -303,7 +303,10 @@ Lemma checkin_failed_mono : forall r fwc s x s', checkin_failed cf r fwc s = (x,
 Proof.
   unfold checkin_failed; intros.
   destruct (rec_invalidate cf r false s) as [y s1] eqn:E1. apply rec_invalidate_rl, RecLevel_Mono in E1.
-  dm H; [|inv H; auto]. apply rec_checkin_mono in H. mt; eauto.
+  dm H.
+  - apply rec_checkin_mono in H. mt; eauto.
+  - destruct (rec_checkin cf r fwc s1) as [w s2] eqn:E2. apply rec_checkin_mono in E2.
+    destruct w; inv H; mt; eauto.
 Qed.
 
 Lemma reraise_after_mono : forall A e (h : res unit * st) (x : res A) s s',
@@ -344,24 +347,30 @@ Ltac mono_leaf := constructor; cbn; intros; auto; try lia.
 Ltac mt := eapply Mono_trans.
 
 (* _finalize_fairy, generically: any reflexive-transitive relation on states that contains the
-   record-level steps, the taint mark, the check-in of the record and the final clearing of the fairy
+   record-level steps, the taint mark, the check-in of the record and the clearing of the fairy
    relates the state before and after *)
 Section FinalizeGen.
 Variable R : st -> st -> Prop.
 Hypothesis R_refl : forall s, R s s.
 Hypothesis R_trans : forall a b c, R a b -> R b c -> R a c.
 Hypothesis R_rl : forall s s', RecLevel s s' -> R s s'.
-Hypothesis R_taint : forall s, R s (set_taint_reset s true).
+Hypothesis R_taint : forall s, R s (set_taint_gc s true).
 Variable r : option nat.
 Variable fy : option nat.
 Hypothesis R_checkin : forall r0 s x s', r = Some r0 -> rec_checkin cf r0 true s = (x, s') -> R s s'.
-Hypothesis R_tail : forall f s, fy = Some f ->
-  R s (set_f_rec (set_f_dbc s (upd (f_dbc s) f None)) (upd (f_rec s) f None)).
+Hypothesis R_tail : forall s, R s (clear_fairy fy s).
 
 Lemma finalize_gen : forall dbc gcf twr s x s', finalize cf dbc r gcf twr fy s = (x, s') -> R s s'.
 Proof.
   unfold finalize; intros dbc gcf twr s x s' H.
   match type of H with (if ?b then _ else _) = _ => destruct b; [inv H; apply R_refl|] end.
+  assert (CK : forall a y b,
+    match r with
+    | Some r0 => match r_fairy a r0 with Some _ => rec_checkin cf r0 true a | None => (Ok tt, a) end
+    | None => (Ok tt, a)
+    end = (y, b) -> R a b).
+  { intros a y b Hc. destruct r as [r0|]; [|inv Hc; apply R_refl].
+    destruct (r_fairy a r0); [eapply R_checkin; eauto|inv Hc; apply R_refl]. }
   match type of H with (let '(_, _) := ?e in _) = _ => destruct e as [y s1] eqn:E0 end.
   assert (M0 : R s s1).
   { match type of E0 with match ?d with _ => _ end = _ => destruct d as [c|] end; [|inv E0; apply R_refl].
@@ -373,25 +382,18 @@ Proof.
     destruct y1 as [|e]; [inv E0; auto|].
     match type of E0 with (let '(_, _) := ?e in _) = _ => destruct e as [z s3] eqn:E2 end.
     assert (M2 : R s2 s3).
-    { match type of E2 with context [if ?b then set_taint_reset ?u true else ?u] =>
-        set (sa := if b then set_taint_reset u true else u) in *;
-        assert (Ma : R u sa) by (subst sa; destruct b; [apply R_taint|apply R_refl]) end.
-      eapply R_trans; [exact Ma|].
-      destruct r; [eapply R_rl, rec_invalidate_rl; exact E2|inv E2; apply R_refl]. }
+    { destruct r; [eapply R_rl, rec_invalidate_rl; exact E2|inv E2; apply R_refl]. }
     assert (M3 : R s s3) by (eapply R_trans; eauto).
-    destruct z; [|inv E0; auto]. destruct (is_exception e); [inv E0; auto|].
-    destruct r as [r0|] eqn:Er0; [|inv E0; auto].
-    destruct (r_fairy s3 r0); [|inv E0; auto].
-    destruct (rec_checkin cf r0 true s3) as [w s4] eqn:Ec. apply (R_checkin _ _ _ _ eq_refl) in Ec.
-    unfold reraise_after in E0. destruct w; inv E0; eapply R_trans; eauto. }
+    destruct z.
+    2:{ inv E0. eapply R_trans; [exact M3|]. dm_goal; [apply R_taint|apply R_refl]. }
+    destruct (is_exception e); [inv E0; auto|].
+    match type of E0 with match ?e with _ => _ end = _ => destruct e as [w s4] eqn:Ec end.
+    apply CK in Ec. destruct w; inv E0; [|eapply R_trans; eauto].
+    eapply R_trans; [exact M3|]. eapply R_trans; [exact Ec|apply R_tail]. }
   destruct y; [|inv H; auto].
-  match type of H with (let '(_, _) := ?e in _) = _ => destruct e as [w s2] eqn:E1 end.
-  assert (M1 : R s1 s2).
-  { destruct r as [r0|]; [|inv E1; apply R_refl]. destruct (r_fairy s1 r0); [|inv E1; apply R_refl].
-    eapply R_checkin; eauto. }
-  destruct w; [|inv H; eapply R_trans; eauto].
-  destruct fy as [f|]; inv H; [|eapply R_trans; eauto].
-  eapply R_trans; [exact M0|]. eapply R_trans; [exact M1|]. apply R_tail; auto.
+  match type of H with match ?e with _ => _ end = _ => destruct e as [w s2] eqn:E1 end.
+  apply CK in E1. destruct w; inv H; [|eapply R_trans; eauto].
+  eapply R_trans; [exact M0|]. eapply R_trans; [exact E1|apply R_tail].
 Qed.
 End FinalizeGen.
 
@@ -401,7 +403,7 @@ Proof.
   eapply (finalize_gen Mono Mono_refl Mono_trans RecLevel_Mono); [| | |exact H].
   - intros; mono_leaf.
   - intros; eapply rec_checkin_mono; eauto.
-  - intros; mono_leaf.
+  - intros; unfold clear_fairy; destruct fy; [mono_leaf|apply Mono_refl].
 Qed.
 
 Lemma fairy_checkin_mono : forall f twr s x s', fairy_checkin cf f twr s = (x, s') -> Mono s s'.
@@ -563,7 +565,10 @@ Lemma checkin_failed_fr : forall r fwc s x s', checkin_failed cf r fwc s = (x, s
 Proof.
   unfold checkin_failed; intros.
   destruct (rec_invalidate cf r false s) as [y s1] eqn:E1. apply rec_invalidate_rl, rl_fr' in E1.
-  dm H; [|inv H; auto]. apply rec_checkin_fr in H. congruence.
+  dm H.
+  - apply rec_checkin_fr in H. congruence.
+  - destruct (rec_checkin cf r fwc s1) as [w s2] eqn:E2. apply rec_checkin_fr in E2.
+    destruct w; inv H; congruence.
 Qed.
 
 (* _ConnectionRecord.checkout makes exactly one fairy, or none when it raises *)
@@ -631,7 +636,7 @@ Proof.
   - intros. apply fr_SameNF, rl_fr'. auto.
   - intros; nf_leaf.
   - intros. eapply fr_SameNF, rec_checkin_fr; eauto.
-  - intros; nf_leaf.
+  - intros; unfold clear_fairy; destruct fy; [nf_leaf|apply SameNF_refl].
 Qed.
 
 Lemma fairy_checkin_nf : forall f twr s x s', fairy_checkin cf f twr s = (x, s') -> SameNF s s'.
